@@ -80,7 +80,76 @@ Proof.
     rewrite Forall_forall in F. apply F, Hx.
 Qed.
 
-(* ---------------------------------------------------------------- bridge to meshes *)
+(* ---------------------------------------------------------------- quad *)
+Theorem quad_wf : wf_idx_nat quad_nverts quad_idx.
+Proof. apply wf_idx_natb_iff. reflexivity. Qed.
+
+(* ---------------------------------------------------------------- ribbon (extrude.Line) *)
+Lemma ribbon_length : forall points, length (ribbon_idx points) = ((points - 1) * 4) * 3.
+Proof.
+  intros points. unfold ribbon_idx. rewrite (flat_map_length_const _ _ _ 12); [|intros; reflexivity].
+  rewrite seq_length. lia.
+Qed.
+
+Theorem ribbon_wf : forall points, wf_idx_nat (ribbon_nverts points) (ribbon_idx points).
+Proof.
+  intros points. split.
+  - rewrite ribbon_length. apply mod3_mul.
+  - unfold ribbon_idx, ribbon_nverts. rewrite Forall_forall. intros x Hx.
+    apply in_flat_map in Hx. destruct Hx as [i [Hi Hx]]. apply in_seq in Hi.
+    unfold ribbon_seg in Hx. cbn [In] in Hx.
+    repeat (destruct Hx as [<-|Hx]; [lia|]). destruct Hx.
+Qed.
+
+(* ---------------------------------------------------------------- shape (extrude.makeShape) *)
+Lemma shape_quad_length : forall sides bottom top i, length (shape_quad sides bottom top i) = 6.
+Proof. reflexivity. Qed.
+
+Lemma shape_length : forall sides points closed,
+  length (shape_idx sides points closed) = (((points - 1) * sides + (if closed then sides else 0)) * 2) * 3.
+Proof.
+  intros sides points closed. unfold shape_idx. rewrite app_length.
+  rewrite (flat_map_length_const _ _ _ (sides * 6)).
+  - rewrite seq_length. destruct closed.
+    + rewrite (flat_map_length_const _ _ _ 6); [rewrite seq_length; lia|intros; apply shape_quad_length].
+    + cbn [length]. lia.
+  - intros j _. rewrite (flat_map_length_const _ _ _ 6); [rewrite seq_length; reflexivity|].
+    intros; apply shape_quad_length.
+Qed.
+
+Lemma shape_quad_bound : forall sides bottom top i n, i < sides ->
+  bottom + sides <= n -> top + sides <= n ->
+  Forall (fun x => x < n) (shape_quad sides bottom top i).
+Proof.
+  intros sides bottom top i n Hi Hb Ht. unfold shape_quad.
+  destruct i as [|i]; repeat constructor; lia.
+Qed.
+
+Theorem shape_wf : forall sides points closed, 1 <= points ->
+  wf_idx_nat (shape_nverts sides points) (shape_idx sides points closed).
+Proof.
+  intros sides points closed Hp. split.
+  - rewrite shape_length. apply mod3_mul.
+  - unfold shape_idx, shape_nverts. apply Forall_app. split.
+    + rewrite Forall_forall. intros x Hx.
+      apply in_flat_map in Hx. destruct Hx as [j [Hj Hx]]. apply in_seq in Hj.
+      apply in_flat_map in Hx. destruct Hx as [i [Hi Hx]]. apply in_seq in Hi.
+      assert (L : S (S j) * sides <= points * sides) by (apply Nat.mul_le_mono_r; lia).
+      assert (E1 : S j * sides = j * sides + sides) by (rewrite Nat.mul_succ_l; lia).
+      assert (E2 : S (S j) * sides = S j * sides + sides) by (rewrite Nat.mul_succ_l; lia).
+      pose proof (shape_quad_bound sides (j * sides) (S j * sides) i (points * sides) ltac:(lia) ltac:(lia) ltac:(lia)) as F.
+      rewrite Forall_forall in F. apply F, Hx.
+    + destruct closed; [|constructor].
+      rewrite Forall_forall. intros x Hx.
+      apply in_flat_map in Hx. destruct Hx as [i [Hi Hx]]. apply in_seq in Hi.
+      destruct points as [|p]; [lia|].
+      assert (E : S p * sides = p * sides + sides) by (rewrite Nat.mul_succ_l; lia).
+      replace (S p - 1) with p in Hx by lia.
+      pose proof (shape_quad_bound sides (p * sides) 0 i (S p * sides) ltac:(lia) ltac:(lia) ltac:(lia)) as F.
+      rewrite Forall_forall in F. apply F, Hx.
+Qed.
+
+
 Definition gen_mesh_nat (nv : nat) (idx : list nat) (ks : list Pure.key) (mats : list (nat * N))
   (vals : Pure.key -> nat -> Pure.vec) : Pure.mesh :=
   Mesh Triangle idx mats (map (fun k => ((k, map (vals k) (seq 0 nv)) : Pure.attr)) ks).
@@ -105,6 +174,23 @@ Proof. intros. apply gen_mesh_nat_wf; auto. apply fan_wf; assumption. Qed.
 Theorem tube_mesh_wf : forall flip sides points ks mats vals, ssortedb ks = true -> ks <> [] ->
   wf (gen_mesh_nat (tube_nverts sides points) (tube_idx flip sides points) ks mats vals).
 Proof. intros. apply gen_mesh_nat_wf; auto. apply tube_wf. Qed.
+
+Theorem quad_mesh_wf : forall ks mats vals, ssortedb ks = true -> ks <> [] ->
+  wf (gen_mesh_nat quad_nverts quad_idx ks mats vals).
+Proof. intros. apply gen_mesh_nat_wf; auto. apply quad_wf. Qed.
+
+Theorem ribbon_mesh_wf : forall points ks mats vals, ssortedb ks = true -> ks <> [] ->
+  wf (gen_mesh_nat (ribbon_nverts points) (ribbon_idx points) ks mats vals).
+Proof. intros. apply gen_mesh_nat_wf; auto. apply ribbon_wf. Qed.
+
+Theorem shape_mesh_wf : forall sides points closed ks mats vals, 1 <= points -> ssortedb ks = true -> ks <> [] ->
+  wf (gen_mesh_nat (shape_nverts sides points) (shape_idx sides points closed) ks mats vals).
+Proof. intros. apply gen_mesh_nat_wf; auto. apply shape_wf; assumption. Qed.
+
+Example ribbon_2 : ribbon_idx 2 = [3;0;1; 3;1;4; 3;5;0; 5;2;0].
+Proof. reflexivity. Qed.
+Example shape_3_2 : shape_idx 3 2 true = [2;5;3;2;3;0; 0;3;4;0;4;1; 1;4;5;1;5;2;  5;2;0;5;0;3; 3;0;1;3;1;4; 4;1;2;4;2;5].
+Proof. reflexivity. Qed.
 
 Example fan_4 : fan_idx 4 = [0;4;1; 1;4;2; 2;4;3; 3;4;0].
 Proof. reflexivity. Qed.
